@@ -64,7 +64,14 @@ def _get_unmarshaller(  # type: ignore[return]
     context: routines.ContextT,
 ) -> routines.AbstractMarshaller[T]:
     if node.type in context:
-        return context[node.type]
+        routine = context[node.type]
+        # A delayed routine only stands in for a type until the type itself is reached.
+        if node.cyclic or not isinstance(routine, DelayedMarshaller):
+            return routine
+
+    # A revisited type which isn't resolved yet closes a cycle, resolve it at call-time.
+    if node.cyclic and not inspection.isforwardref(node.unwrapped):
+        return DelayedMarshaller(node.unwrapped, context=context, var=node.var)
 
     for check, unmarshaller_cls in _HANDLERS.items():
         if check(node.unwrapped):
